@@ -3,6 +3,7 @@
 package props
 
 import (
+	"slices"
 	"fmt"
 	"math/rand/v2"
 	"runtime"
@@ -27,7 +28,7 @@ func init() {
 				Rule: "case = pair (lhs, rhs) of int sequences. Exhaustive: every pair over alphabet 3 x length <= 7 (10,758,400 pairs), alphabet 2 x length <= 9 (1,046,529 pairs) and alphabet 4 x length <= 5 (1,863,225 pairs) in quick; additionally alphabet 2 x length <= 11, alphabet 3 x length <= 8 (96.8 M pairs) and alphabet 5 x length <= 5 in thorough; every pair of windows (prefix/prefix, window/prefix, suffix/prefix) of one shared backing array of up to 9 binary elements (inputs that alias each other); pairs of 4100..11700 elements (length products past 2^24..2^27: a repeated block removed, scattered edits); wrap-around schedules (a larger call, exactly N one-element calls for N around 2^8, 2^9, 2^16, 2^17, then a larger call on unrelated content, all on one P); random pairs of length up to 400 made of long common runs with point mutations, insertions, deletions and block moves over alphabets of 2..50 symbols. " +
 					"Per pair: interpreter (each edit's X and Y are the spans of lhs and rhs at the current offsets, by value and by address; lhs consumed and rhs produced exactly), emitted element count == LCS length from an independent O(mn) table, canonical form (no empty edit, adjacent edits differ in kind, no Drop next to Copy, only the four opcodes, empty iff equal), inputs unmodified; a sample of returned scripts is kept and verified again after later calls; 8 goroutines call EditScript concurrently on unshared inputs (plain and under -race); interleaved with all of it, calls that fail half-way and are recovered by the caller (uncomparable interface elements compared with ==, a panicking equality function), so that every verified call also runs right after a failed one. " +
 					"distinct = the pair itself (enumerated without repetition; random pairs by hash); non-trivial = the pair has more than one optimal alignment (counted by a separate DP)",
-				Required:     []string{"pairs", "ambiguous_pairs", "replace_edits", "equal_pairs", "random_pairs", "aliased_pairs", "concurrent_calls", "kept_results_rechecked", "interface_element_cases", "abandoned_calls", "very_large_pairs", "wraparound_schedules"},
+				Required:     []string{"pairs", "ambiguous_pairs", "replace_edits", "equal_pairs", "random_pairs", "aliased_pairs", "concurrent_calls", "kept_results_rechecked", "interface_element_cases", "abandoned_calls", "very_large_pairs", "wraparound_schedules", "subsequence_boundary_pairs"},
 				Exhaustive:   true,
 				Assumptions:  []string{"the O(mn) LCS table is the reference for minimality"},
 				CoverPkgs:    []string{"github.com/creachadair/mds/slice"},
@@ -535,6 +536,53 @@ func runC11(c *fw.Ctx) {
 		}()
 		c.Add("wraparound_schedules", 1)
 		c.Add("pairs", 6)
+	}
+	// one input is a subsequence of the other (pure deletions / pure insertions):
+	// the longer one has n elements, the shorter one m, and the last element of
+	// the shorter one matches at position p of the longer one; every p within 6
+	// of each multiple of 100 up to 1200 and of 1000 up to 5000, with 0..3
+	// elements after it. Checks that work in rows, blocks or batches of a round
+	// decimal size meet their boundaries here.
+	if c.Begin(idx + 970000 + c.Block) {
+		var ps []int
+		for m := 100; m <= 1200; m += 100 {
+			for d := -6; d <= 6; d++ {
+				ps = append(ps, m+d)
+			}
+		}
+		for m := 2000; m <= 5000; m += 1000 {
+			for d := -6; d <= 6; d++ {
+				ps = append(ps, m+d)
+			}
+		}
+		cnt := 0
+		for pi, p := range ps {
+			if pi%c.NBlocks != c.Block {
+				continue
+			}
+			for _, trail := range []int{0, 1, 3} {
+				for _, m := range []int{1, 30, min(300, p)} {
+					n := p + 1 + trail
+					long := make([]int, n)
+					for i := range long {
+						long[i] = 1000 + i
+					}
+					short := make([]int, 0, m)
+					for j := 0; j < m-1; j++ {
+						short = append(short, long[j*(p-1)/max(1, m-1)])
+					}
+					short = append(short, long[p])
+					// remove accidental repeats (positions may coincide for small p)
+					short = slices.Compact(short)
+					c11check(c, long, short)
+					c11check(c, short, long)
+					cnt += 2
+				}
+			}
+			c.Step()
+		}
+		c.Add("pairs", int64(cnt))
+		c.Add("subsequence_boundary_pairs", int64(cnt))
 	}
 	// random long pairs
 	nr := c.Pick(150, 3000)
